@@ -93,6 +93,17 @@ def tocart (j : Json) : Except String Json := do
     pure (vectorToCartesian cl n a c, vectorToCartesianOp cl n a c)
   pure <| Json.mkObj [("code", jMat (rows.map (·.1))), ("op", jMat (rows.map (·.2)))]
 
+/-- {"cls","n","ncoords","pt":[cθ,sθ,cφ,sφ],"comps":[..]} -> the converted vector or "DimensionError" -/
+def tocartChecked (j : Json) : Except String Json := do
+  let cl ← parseCls (← fldS j "cls")
+  let n ← fldN j "n"
+  let nc ← fldN j "ncoords"
+  let a ← getAngles (← fldQs j "pt")
+  let comps ← fldQs j "comps"
+  match vectorToCartesianChecked cl n a nc comps with
+  | some v => pure (jQs v)
+  | none => pure (Json.str "DimensionError")
+
 /-- the same for rank-2 tensors: "tensors": [[[..]..]..] -/
 def tocart2 (j : Json) : Except String Json := do
   let cl ← parseCls (← fldS j "cls")
@@ -132,13 +143,16 @@ def getitemH (j : Json) : Except String Json := do
     ("t", Json.arr (ord.flatMap fun a => ord.map fun b =>
       Json.arr #[Json.str a.name, Json.str b.name, jo (getitem2 cl n a b t)]).toArray)]
 
-/-- {"cls","n","vals":[..]} -> components or "DimensionError" -/
+/-- {"cls","n","vals":[..]} -> "DimensionError" or {"comps": the components `from_expression` stores,
+"byname": `from_expression(...)[name]` for every axis name (null = IndexError)} -/
 def fromexpr (j : Json) : Except String Json := do
   let cl ← parseCls (← fldS j "cls")
   let n ← fldN j "n"
   let vals ← fldQs j "vals"
+  let jo : Option Rat → Json := fun o => match o with | none => Json.null | some q => jQ q
   match fromExpressions cl n vals with
-  | some c => pure (jQs c)
+  | some c => pure <| Json.mkObj [("comps", jQs c),
+      ("byname", Json.mkObj (allAx.map fun a => (a.name, jo (getitem cl n a c))))]
   | none => pure (Json.str "DimensionError")
 
 def fromexpr2 (j : Json) : Except String Json := do
@@ -149,16 +163,18 @@ def fromexpr2 (j : Json) : Except String Json := do
   | some c => pure (jMat c)
   | none => pure (Json.str "DimensionError")
 
-/-- {"cls","r","z","pt":[cθ,sθ,cφ,sφ]} -> `pos_to_cart` -/
+/-- {"cls","pts":[[r,z,cθ,sθ,cφ,sφ]..]} -> `pos_to_cart` of each point -/
 def postocart (j : Json) : Except String Json := do
   let cl ← parseCls (← fldS j "cls")
-  let r ← fldQ j "r"
-  let z ← fldQ j "z"
-  let a ← getAngles (← fldQs j "pt")
-  pure (jQs (posToCart cl r z a))
+  let pts ← getMat (← fld j "pts")
+  let out ← pts.mapM fun p =>
+    match p with
+    | [r, z, ct, st, cp, sp] => pure (jQs (posToCart cl r z ⟨ct, st, cp, sp⟩))
+    | _ => throw "postocart: expected [r, z, cθ, sθ, cφ, sφ]"
+  pure (Json.arr out.toArray)
 
 def handlers : List (String × Handler) := [
-  ("c19.cs", cs), ("c19.order", order), ("c19.tocart", tocart), ("c19.tocart2", tocart2),
+  ("c19.cs", cs), ("c19.order", order), ("c19.tocart", tocart), ("c19.tocart_checked", tocartChecked), ("c19.tocart2", tocart2),
   ("c19.products", products), ("c19.getitem", getitemH), ("c19.fromexpr", fromexpr),
   ("c19.fromexpr2", fromexpr2), ("c19.postocart", postocart)]
 end PdeVerif.Drv.C19
